@@ -294,6 +294,7 @@ def concrete_program(m, t, no_prss, prog_name, l, k, seeds):
     mp.uninstall_symbolic()
     for seed in seeds:
         mp.clear_caches()
+        mp.install_seeded(seed)
         G = Ghost()
         loop, net, rts = mp.make_parties(m, t, no_prss=no_prss, k=k)
         try:
